@@ -143,17 +143,19 @@ AddSubdomains(L) ==
           /\ nb' = nb + Len(pos) /\ last' = "ok"
           /\ UNCHANGED <<ifKeys, ifPair, ifTag>>
 
-AddInterface(i, a, b) ==
+AddInterfaceV(i, a, b, atomic) ==
   /\ FamAddIntf(D, M, MSt, i, a, b)
   /\ ref' = RefAddIntf(D, ref, i, a, b).st /\ UNCHANGED <<pool, sdKeys, bgOf, nb, sdTag, bgTag>>
   /\ IF i \in SetOf(ifKeys)
      THEN last' = "ValueError" /\ UNCHANGED <<ifKeys, ifPair, ifTag>>
      ELSE IF AbsV(D[a] - D[b]) >= 3
           THEN /\ last' = "ValueError" /\ UNCHANGED ifPair
-               /\ IF AtomicAddInterface THEN UNCHANGED <<ifKeys, ifTag>>
+               /\ IF atomic THEN UNCHANGED <<ifKeys, ifTag>>
                   ELSE ifKeys' = Append(ifKeys, i) /\ ifTag' = (i :> -1) @@ ifTag
           ELSE /\ ifKeys' = Append(ifKeys, i) /\ ifPair' = (i :> HiLo(D, a, b)) @@ ifPair
                /\ ifTag' = (i :> i) @@ ifTag /\ last' = "ok"
+
+AddInterface(i, a, b) == AddInterfaceV(i, a, b, AtomicAddInterface)
 
 RemoveSubdomain(s) ==
   /\ FamRemove(MSt, s)
@@ -200,16 +202,8 @@ ReplOne(m, old, new) ==
 RECURSIVE ReplSeq(_, _)
 ReplSeq(m, map) == IF map = <<>> THEN m ELSE ReplSeq(ReplOne(m, map[1][1], map[1][2]), Tail(map))
 
-\* sd_map = sequence of <<old, new>>; family: applying the entries in order, each replaces a present subdomain by an
-\* absent grid of the same dimension
-RECURSIVE FamReplace(_, _)
-FamReplace(st, map) ==            \* (IF, not a disjunction: inside an action TLC explores both disjuncts)
-  IF map = <<>> THEN TRUE
-  ELSE /\ FamReplaceOne(D, st, map[1][1], map[1][2])
-       /\ FamReplace([st EXCEPT !.sds = (@ \ {map[1][1]}) \cup {map[1][2]}], Tail(map))
-
 ReplaceSubdomains(map) ==
-  /\ map # <<>> /\ FamReplace(MSt, map)
+  /\ map # <<>> /\ FamReplaceSeq(D, MSt, map)
   /\ ref' = RefReplace(D, ref, map).st /\ UNCHANGED <<pool, ifKeys, ifTag>>
   /\ LET m == ReplSeq([sk |-> sdKeys, st |-> sdTag, ip |-> ifPair, bo |-> bgOf, bt |-> bgTag, n |-> nb, last |-> "ok"], map)
      IN /\ sdKeys' = m.sk /\ sdTag' = m.st /\ ifPair' = m.ip /\ bgOf' = m.bo /\ bgTag' = m.bt /\ nb' = m.n
